@@ -104,8 +104,9 @@ def averageFeeForBlockPerVByte (get : PrevOut → Option Nat) (b : Block) : Outc
 
 open BtcVerif.Model.Utxo (hexEncode) in
 /-- `getTxHex` maps the bytes of a txid string to the bytes of a hex string (`none`: error).
-    The closure's tests are not in the regenerated guards (function literals are not numbered):
-    `txHex == ""` and `int(prevOut.Index) >= len(txn.Outputs)` are written by hand. -/
+    `txHex == ""` is written by hand (strings are not translated); the index test
+    `int(prevOut.Index) >= len(txn.Outputs)` is the regenerated guard of the function literal, and an index
+    that passes it without being in range is Go's index-out-of-range panic. -/
 def naivePrevOutValue (getTxHex : Bytes → Option Bytes) (p : PrevOut) : Outcome Nat :=
   let txid := hexEncode p.hash.reverse
   match getTxHex txid with
@@ -117,9 +118,11 @@ def naivePrevOutValue (getTxHex : Bytes → Option Bytes) (p : PrevOut) : Outcom
     | some raw =>
       match decTx raw with
       | .ok (t, _) =>
-        match t.outputs[p.index]? with
-        | none => .err                                   -- `int(prevOut.Index) >= len(txn.Outputs)`
-        | some o => .ok o.value
+        if feecalc_NewNaivePrevOutValueFunc_lit0_1 (prevOut_Index := p.index) (len_txn_Outputs := t.outputs.length)
+        then .err
+        else match t.outputs[p.index]? with
+          | none => .panic                               -- `txn.Outputs[prevOut.Index]` out of range
+          | some o => .ok o.value
       | .err => .err
       | .panic => .panic
 
